@@ -122,6 +122,40 @@ pub fn run(ctx: &Ctx, rep: &mut Report) {
         let mut w = ItsWorld::new(&mut rng, &chain, b"hub-address", 4);
         w.trust(b"ethereum");
         let third = w.u.principal();
+        // ---------------------------------------------------------------- determinism twin
+        // the same world built from the same random stream at another ledger sequence and time:
+        // the same (deployer, salt) must give the same id and the same token address
+        {
+            let mut r1 = ctx.rng_for(uni ^ 0x7717);
+            let mut r2 = r1.clone();
+            let mut a = ItsWorld::new_at(&mut r1, &chain, b"hub-address", 2, 100, 1_000_000);
+            let mut b = ItsWorld::new_at(&mut r2, &chain, b"hub-address", 2, 77_777, 1_900_000_000);
+            let salt = rng.bytes32();
+            let (da, db) = (a.users[0].clone(), b.users[0].clone());
+            let oa = a.do_deploy(&da, &salt, b"Twin", b"TWN", 9, 5, None, Auth::Only(vec![da.clone()]));
+            let ob = b.do_deploy(&db, &salt, b"Twin", b"TWN", 9, 5, None, Auth::Only(vec![db.clone()]));
+            rep.eval("determinism-twin", &format!("twin|{}|{}", oa.ok(), ob.ok()), true);
+            rep.count("determinism-twin");
+            match (&oa.res, &ob.res) {
+                (Ok(ia), Ok(ib)) => {
+                    let ta = a.registry_entry(ia).map(|x| sc_addr(&x.0));
+                    let tb = b.registry_entry(ib).map(|x| sc_addr(&x.0));
+                    if sc_addr(&a.its) == sc_addr(&b.its) && sc_addr(&da) == sc_addr(&db) {
+                        if ia != ib {
+                            rep.violation("token-id-depends-on-ledger-state", "the same (chain name, deployer, salt) gave different ids at different ledger sequence / time".into());
+                        } else if ta != tb {
+                            rep.violation("token-address-depends-on-ledger-state", "the same service and id gave different token addresses at different ledger sequence / time".into());
+                        }
+                    } else {
+                        rep.count("note:twin-worlds-not-address-identical");
+                    }
+                }
+                (Ok(_), Err(_)) | (Err(_), Ok(_)) => {
+                    rep.violation("deployment-outcome-depends-on-ledger-state", "the same deployment succeeded in one world and failed in its twin".into());
+                }
+                _ => {}
+            }
+        }
         // ---------------------------------------------------------------- id algebra
         {
             let env = w.u.env.clone();
@@ -555,11 +589,12 @@ pub fn run(ctx: &Ctx, rep: &mut Report) {
     }
     req.push("inbound-probe-ok".into());
     req.push("op:deploy-unrepresentable-metadata".into());
+    req.push("determinism-twin".into());
     rep.notes.insert("required".into(), json!(req));
     rep.notes.insert("n_recipe_agrees_with_documented_derivation".into(), json!(recipe_agree));
     rep.notes.insert("n_recipe_differs_from_documented_derivation".into(), json!(recipe_differ));
     rep.notes.insert("token_mode".into(), json!("native (service constructed with the native marker hash; deployed tokens run the tree's interchain-token code)"));
-    rep.notes.insert("rule".into(), json!("per universe: id algebra over three service instances (same chain name twice, another chain name) x 3 deployers x 3 salts x 2 canonical tokens: determinism, equality across instances with equal chain name, no collision between different inputs or kinds (the exact documented recipe is recorded as a note, not a verdict); then 15+ operations: local deployments over all 12 (supply in {-5,0,1000}) x (minter in {none, third party, deployer, service}) configurations, colliding redeployments (same deployer+salt with same/other metadata), same salt from another deployer, canonical registration (asset contract / interchain token) once and again, remote deploy messages for fresh ids and for ids taken locally / canonically / remotely, local deployment of an id taken remotely; after every operation every registered id is re-read (address and manager type never change); every deployed token is read back (token_id, metadata, owner, deployer balance, minter flags) and receives an approved inbound transfer of 1 unit at a checkpoint. distinct = (op, configuration, id taken, outcome)"));
+    rep.notes.insert("rule".into(), json!("per universe: a determinism twin (the same world rebuilt from the same random stream at another ledger sequence and timestamp must give the same id and the same token address for the same deployer and salt); id algebra over three service instances (same chain name twice, another chain name) x 3 deployers x 3 salts x 2 canonical tokens: determinism, equality across instances with equal chain name, no collision between different inputs or kinds (the exact documented recipe is recorded as a note, not a verdict); then 15+ operations: local deployments over all 12 (supply in {-5,0,1000}) x (minter in {none, third party, deployer, service}) configurations, colliding redeployments (same deployer+salt with same/other metadata), same salt from another deployer, canonical registration (asset contract / interchain token) once and again, remote deploy messages for fresh ids and for ids taken locally / canonically / remotely, local deployment of an id taken remotely; after every operation every registered id is re-read (address and manager type never change); every deployed token is read back (token_id, metadata, owner, deployer balance, minter flags) and receives an approved inbound transfer of 1 unit at a checkpoint. distinct = (op, configuration, id taken, outcome)"));
 }
 
 fn its_deploy_salt_id(chain: &[u8], deployer: &soroban_sdk::xdr::ScAddress, salt: &[u8; 32]) -> [u8; 32] {
